@@ -26,6 +26,13 @@ def units(ctx):
             us.append(contract_unit(c))
     for c in regex.contracts():
         us.append(contract_unit(c, world_setup=regex.setup))
+    for c in regex.plumbing_contracts():
+        us.append(contract_unit(c, world_setup=regex.setup_plumbing))
+    # string arguments reach the functions code point for code point
+    from contracts import yaqltypes
+    us += [contract_unit(c, world_setup=yaqltypes.setup)
+           for c in yaqltypes.contracts()
+           if c.short.endswith('convert/identity')]
     return us
 
 LEVEL = 'proof'
